@@ -106,6 +106,37 @@ pub fn verif_generate_with(
     Ok((certificate.der().to_vec(), spki))
 }
 
+/// Verification hook: like [`verif_generate_with`], but every extension chooses its OID: `make`
+/// gets the certificate key's SubjectPublicKeyInfo and returns, in certificate order,
+/// `(oid, signed_key, raw, critical)` entries; `oid = None` stands for the libp2p Public Key
+/// Extension OID, the content is the DER of `SignedKey { public_key, signature }` when
+/// `signed_key` is given and `raw` otherwise. Adds code only.
+#[cfg(feature = "verif")]
+#[allow(clippy::type_complexity)]
+pub fn verif_generate_with_extensions(
+    make: impl FnOnce(&[u8]) -> Vec<(Option<Vec<u64>>, Option<(Vec<u8>, Vec<u8>)>, Vec<u8>, bool)>,
+) -> Result<(Vec<u8>, Vec<u8>), GenError> {
+    use rcgen::PublicKeyData;
+
+    let certificate_keypair = rcgen::KeyPair::generate_for(P2P_SIGNATURE_ALGORITHM)?;
+    let spki = certificate_keypair.subject_public_key_info();
+    let mut params = rcgen::CertificateParams::new(vec![])?;
+    params.distinguished_name = rcgen::DistinguishedName::new();
+    for (oid, signed_key, raw, critical) in make(&spki) {
+        let content = match signed_key {
+            Some(signed_key) => yasna::encode_der(&signed_key),
+            None => raw,
+        };
+        let oid = oid.unwrap_or_else(|| P2P_EXT_OID.to_vec());
+        let mut ext = rcgen::CustomExtension::from_oid_content(&oid, content);
+        ext.set_criticality(critical);
+        params.custom_extensions.push(ext);
+    }
+    let certificate = params.self_signed(&certificate_keypair)?;
+
+    Ok((certificate.der().to_vec(), spki))
+}
+
 /// Attempts to parse the provided bytes as a [`P2pCertificate`].
 ///
 /// For this to succeed, the certificate must contain the specified extension and the signature must
